@@ -502,6 +502,194 @@ def gotoargs_family(rng, tier):
     return progs
 
 
+# ---- jump-target-fusion: peephole rules of the compiler across jump landing points
+FUSION_STORES = ["set", "cset", "inc", "dec"]
+FUSION_READS = ["pr", "cond", "arg", "size", "inc", "cset", "copy"]
+FUSION_CONSTRUCTS = ["if-join", "else-join", "then-join", "switch-end", "case-fallthrough", "loop-break", "do-continue",
+                     "for-continue-inc", "for-backedge", "while-backedge", "do-backedge", "try-end", "catch-end", "catch-entry",
+                     "goto-label", "while-continue", "and-store", "or-store"]
+
+
+def fusion_snippet(con, sc, store, read, take, uid):
+    """items of one scenario: the statement just before a jump landing point stores the scope variable
+    V, the code just after it starts by reading V; `take` = the jump to the landing point is taken at
+    run time.  None when the combination has no spelling."""
+    V = G.var(sc, 0)
+    LV = L_(sc, 0)
+    c = 20 + uid                      # loop counter
+    C, LC = G.var("l", c), L_("l", c)
+    T = G.var("l", 1)                 # run-time flag: jump taken
+    xl, gl = 100 + uid, 50 + uid
+
+    def pr(*a):
+        return ("pr", list(a))
+
+    def S(val=None):
+        if store == "set":
+            return ("set", LV, val if val is not None else ("b", "add", C, ("i", 5)))
+        if store == "cset":
+            return ("cset", "add", LV, ("i", 2))
+        if store == "setarr":
+            return ("set", LV, G.var("l", 16))
+        return (store, LV)
+    arr = store == "setarr"
+    if arr and read not in ("idx", "size", "copy"):
+        return None
+    if read == "idx" and not arr:
+        return None
+
+    def R():
+        if read == "pr":
+            return [pr(V)]
+        if read == "cond":
+            return [("ife", ("b", "lt", V, ("i", 5)), pr(("s", "lt")), pr(("s", "ge")))]
+        if read == "arg":
+            return [("th", 1, [V])]
+        if read == "size":
+            return [pr(("size", V))]
+        if read == "inc":
+            return [("inc", LV), pr(V)]
+        if read == "cset":
+            return [("cset", "add", LV, ("i", 1)), pr(V)]
+        if read == "copy":
+            return [("set", L_("l", 5), V), pr(("size", G.var("l", 5))) if arr else pr(G.var("l", 5))]
+        if read == "idx":
+            return [pr(("x", V, ("i", 1)))]
+        raise ValueError(read)
+
+    def cond_reading_v():
+        """a loop condition that starts by reading V and is bounded by the counter"""
+        if arr:
+            return None
+        lim = ("b", "lt", C, ("i", 4))
+        if read == "pr":
+            return ("and", ("b", "lt", V, ("i", 9)), lim)
+        if read == "cond":
+            return ("and", ("not", ("b", "ge", V, ("i", 9))), lim)
+        if read == "size":
+            return ("and", ("b", "lt", ("size", V), ("i", 2)), lim)
+        if read == "copy":
+            return ("and", ("b", "ne", V, ("i", 9)), lim)
+        if read == "inc":
+            return ("and", ("b", "lt", ("b", "add", V, ("i", 1)), ("i", 10)), lim)
+        if read == "cset":
+            return ("b", "lt", ("b", "band", V, ("i", 255)), ("b", "mul", ("b", "sub", ("i", 4), C), ("i", 300)))
+        return None
+
+    def inc_reading_v():
+        if read == "inc":
+            return ("inc", LV)
+        if read == "cset":
+            return ("cset", "add", LV, ("i", 1))
+        if read == "copy":
+            return ("set", L_("l", 5), V)
+        if read == "pr":
+            return pr(V)
+        if read == "arg":
+            return ("th", 1, [V])
+        if read == "size":
+            return pr(("size", V))
+        if read == "idx":
+            return pr(("x", V, ("i", 1)))
+        return None
+    head = [st(pr(("s", "%s %s %s %s %d" % (con, sc, store, read, take)))),
+            st(("set", LV, G.var("l", 17) if arr else ("i", 3))), st(("set", L_("l", 1), ("i", take))), st(("set", LC, ("i", 0)))]
+    guard = ("and", T, ("b", "eq", C, ("i", 1)))
+    if con == "if-join":
+        body = [st(("if", T, ("blk", [S()])))] + [st(x) for x in R()]
+    elif con == "else-join":
+        body = [st(("ife", T, ("blk", [pr(("s", "x"))]), ("blk", [S()])))] + [st(x) for x in R()]
+    elif con == "then-join":
+        body = [st(("ife", T, ("blk", [S()]), ("blk", [pr(("s", "x"))])))] + [st(x) for x in R()]
+    elif con == "switch-end":
+        body = [st(("sw", T, [("ci", 1), ("st", S())]))] + [st(x) for x in R()]
+    elif con == "case-fallthrough":
+        body = [st(("sw", T, [("ci", 0), ("st", S()), ("ci", 1)] + [("st", x) for x in R()] + [("st", ("brk",)), ("cd",), ("st", pr(("s", "no")))]))]
+    elif con == "loop-break":
+        body = [st(("while", ("b", "lt", C, ("i", 3)), ("blk", [("inc", LC), ("if", T, ("brk",)), S()])))] + [st(x) for x in R()]
+    elif con == "do-continue":
+        cd = cond_reading_v()
+        if cd is None:
+            return None
+        body = [st(("do", ("blk", [("inc", LC), ("if", guard, ("cont",)), S()]), cd)), st(pr(V, C))]
+    elif con == "for-continue-inc":
+        inc = inc_reading_v()
+        if inc is None:
+            return None
+        body = [st(("for", ("nop",), ("b", "lt", C, ("i", 4)), inc, ("blk", [("inc", LC), ("if", guard, ("cont",)), S()]))),
+                st(pr(("size", V), C) if arr else pr(V, C))]
+    elif con == "for-backedge":
+        if store != "set" or arr or read not in ("pr", "cond", "copy"):
+            return None
+        body = [st(("for", ("set", LV, ("i", take)), ("b", "lt", V, ("i", 3)), ("inc", LV), ("blk", R())))]
+    elif con == "while-backedge":
+        if arr:
+            return None
+        body = [st(S(("i", take))), st(("while", ("b", "lt", V, ("i", 6)), ("blk", R() + [("cset", "add", LV, ("i", 2))])))]
+    elif con == "do-backedge":
+        body = [st(S()), st(("do", ("blk", R() + [("inc", LC)]), ("b", "lt", C, ("i", 1 + take))))]
+    elif con == "try-end":
+        body = [st(("try", ("blk", [("if", T, ("throw", xl, [])), S()]), [(xl, [], [pr(("s", "c"))])]))] + [st(x) for x in R()]
+    elif con == "catch-end":
+        body = [st(("try", ("blk", [("if", T, ("throw", xl, [])), pr(("s", "n"))]), [(xl, [], [S()])]))] + [st(x) for x in R()]
+    elif con == "catch-entry":
+        body = [st(("try", ("blk", [S(), ("if", T, ("throw", xl, [])), pr(("s", "n"))]), [(xl, [], R())]))]
+    elif con == "goto-label":
+        body = [st(("if", T, ("goto", gl))), st(S()), lab(gl)] + [st(x) for x in R()]
+    elif con == "while-continue":
+        body = [st(("while", ("b", "lt", C, ("i", 3)), ("blk", [("inc", LC), ("if", guard, ("cont",)), S()])))] + [st(x) for x in R()]
+    elif con in ("and-store", "or-store"):
+        if store != "set" or arr:
+            return None
+        body = [st(("set", LV, ("and" if con == "and-store" else "or", T, G.var("l", 2))))] + [st(x) for x in R()]
+    else:
+        raise ValueError(con)
+    return head + body
+
+
+def fusion_family(rng, tier):
+    """deterministic: every landing-point construct x store kind x read kind x jump taken / not taken,
+    the scope of V rotating over local/group/level/game/parm; plus negation / boolean cast / constant
+    folding applied to the result of a short-circuit join"""
+    progs = []
+    snippets = []
+    k = 0
+    scopes = ["l", "g", "v", "m", "p"]
+    for con in FUSION_CONSTRUCTS:
+        for store in FUSION_STORES + ["setarr"]:
+            for read in FUSION_READS + ["idx"]:
+                for take in (1, 0):
+                    for sc in (scopes if tier != "quick" else [scopes[k % 5]]):
+                        sn = (con, sc, store, read, take)
+                        if fusion_snippet(con, sc, store, read, take, 0) is not None:
+                            snippets.append(sn)
+                    k += 1
+    per = 10
+    for i in range(0, len(snippets), per):
+        items = [lab(0), st(("set", L_("l", 16, [("i", 1)]), ("i", 41))), st(("set", L_("l", 16, [("i", 2)]), ("i", 42))), st(("set", L_("l", 17, [("i", 1)]), ("i", 71))), st(("set", L_("l", 2), ("i", 1)))]
+        for uid, (con, sc, store, read, take) in enumerate(snippets[i:i + per]):
+            items += fusion_snippet(con, sc, store, read, take, uid)
+        items += [st(("end0",)), lab(1, [("l", 10)]), st(("pr", [("s", "arg"), G.var("l", 10)])), st(("end0",))]
+        progs.append(("jump-target-fusion", items))
+    # unary operators and casts applied to the value left by a short-circuit join
+    exprs = []
+    lefts = [("i", 0), ("i", 1), G.var("l", 0), G.var("l", 1)]
+    rights = [("i", 5), ("i", 0), G.var("l", 1), ("not", G.var("l", 0)), ("neg", ("i", 7)), ("not", ("i", 3))]
+    for j in ("and", "or"):
+        for a in lefts:
+            for b in rights:
+                e = (j, a, b)
+                exprs += [("neg", e), ("not", e), ("cpl", e), ("not", ("not", e)), ("b", "add", e, ("i", 1)), (j, e, b), ("b", "eq", e, ("neg", ("i", 1)))]
+    for i in range(0, len(exprs), 24):
+        items = [lab(0), st(("set", L_("l", 0), ("i", 0))), st(("set", L_("l", 1), ("i", 1)))]
+        for e in exprs[i:i + 24]:
+            items.append(st(("pr", [e])))
+            items.append(st(("ife", e, ("pr", [("s", "t")]), ("pr", [("s", "f")]))))
+        items.append(st(("end0",)))
+        progs.append(("jump-target-fusion", items))
+    return progs
+
+
 def goto_family(rng, tier):
     V = G.var
     progs = []
@@ -769,7 +957,7 @@ def gen(tier, seed):
     lits, vals = lit_family(rng, tier)
     fams += [(o, a, None) for o, a in lits]
     for fam in (ring_family, alias_family, nil_family, scope_family, trycatch_family, switch_family, operator_family,
-                string_family, float_family, manyargs_family, misc_family, goto_family, gotoargs_family):
+                string_family, float_family, manyargs_family, misc_family, fusion_family, goto_family, gotoargs_family):
         fams += [(o, a, None) for o, a in fam(rng, tier)]
     fams += random_family(rng, tier)
     progs = []
